@@ -23,7 +23,16 @@ out = sh('/verif/tools/baseline.py /repo', check=False)
 print(out.splitlines()[0])
 assert '795/795' in out, out
 assert not sh('git status --porcelain', f'{ag}/verif'), 'agent verif worktree has uncommitted changes'
-print(sh(f'git merge --no-edit ag-{name}', '/verif').splitlines()[-1])
+r = subprocess.run(f'git merge --no-edit ag-{name}', shell=True, cwd='/verif', text=True, capture_output=True)
+if r.returncode:
+    # conflicts are expected only in run-generated files: keep main's, they are refreshed by tools/refresh.sh afterwards
+    sh('git checkout --ours evidence lean/PrysmVerif/Generated lean/PrysmVerif/Audit 2>/dev/null; git add -A', '/verif', check=False)
+    left = sh('git diff --name-only --diff-filter=U', '/verif', check=False)
+    assert not left, f'unresolved conflicts: {left}'
+    sh('git commit --no-edit', '/verif')
+    print('merged (run-generated conflicts resolved to main)')
+else:
+    print(r.stdout.strip().splitlines()[-1])
 for pid in pids:
     f = f'/verif/notes/findings_{pid}.txt'
     if os.path.exists(f):
@@ -35,7 +44,12 @@ for pid in pids:
             for old, new in remap.items():
                 line = re.sub(r'\b' + old + r'[0-9a-f]*\b', new, line)
             lines.append(line)
+        def key(l):   # identity of a finding line, ignoring the commit hash
+            m = re.match(r'(fixed:\s+property=\S+)\s+\S+\s+(.*)', l)
+            return (m.group(1), m.group(2)[:80]) if m else l[:120]
+        have = {key(l.rstrip('\n')) for l in open('/verif/KNOWN_FINDINGS.txt')}
+        new = [l for l in lines if key(l) not in have]
         with open('/verif/KNOWN_FINDINGS.txt', 'a') as k:
-            for l in lines:
+            for l in new:
                 k.write(l + '\n')
-        print(f'{pid}: {len(lines)} finding lines appended')
+        print(f'{pid}: {len(new)} new finding lines appended ({len(lines) - len(new)} already present)')
